@@ -146,7 +146,7 @@ fn logged_int(v: u128) -> bool {
 }
 
 full_harness! {
-// @check C02,C03 thorough timeout=3600 mem=24
+// @check C02,C03 thorough timeout=3600 mem=28
 // @encodes Emf::format, format_with_multiplicity (buffer resets, EntryWriter), EntryWriter::{timestamp, value, validate_name, finish}, ValueWriter::{string, metric}, write_metric, write_all_vectored, advance_slices
 // @bounds formatter "N" / [[]], validations OFF (with validations on, ValueWriter::metric's bit-set/validation-map path makes the same harness exceed 50 minutes); entry = timestamp 7 ms, metric "A" = Unsigned(any u64), string "B" = "s"
 // @oracle Ok; the writer receives exactly one vectored write whose bytes equal, at every position (symbolic index), the expected single newline-terminated JSON line; the numbers formatted are the entry's value and the timestamp in epoch milliseconds
@@ -199,7 +199,7 @@ pub fn whole_format_duplicate_name() {
 }
 
 full_harness! {
-// @check C02,C03 thorough timeout=3600 mem=24
+// @check C02,C03 thorough timeout=3600 mem=28
 // @encodes Emf::format incl. finish(), write_metric (truncate-on-skip), clamp_to_finite
 // @bounds entry = timestamp + metric "A" = Floating(NaN) (the solver-chosen float version of this harness exhausted 30 GB; NaN vs not-NaN is case-split into this harness and whole_format_float_metric); validations off
 // @oracle the record is exactly the record of an entry without that metric: no member, no declaration, still one valid JSON line; Ok, one write
@@ -219,7 +219,7 @@ pub fn whole_format_nan_metric_vanishes() {
 }
 
 full_harness! {
-// @check C02,C03 thorough timeout=3600 mem=24
+// @check C02,C03 thorough timeout=3600 mem=28
 // @encodes Emf::format incl. finish(), write_metric, clamp_to_finite, write_float
 // @bounds entry = timestamp + metric "A" = Floating(any f64 except NaN, incl. +-inf and subnormals); validations off
 // @oracle exactly the one-metric record; the float handed to the number formatter is the value with infinities clamped to +-f64::MAX
@@ -242,7 +242,7 @@ pub fn whole_format_float_metric() {
 }
 
 full_harness! {
-// @check C03,C12 thorough timeout=3600 mem=24
+// @check C03,C12 thorough timeout=3600 mem=28
 // @encodes Emf::format_with_multiplicity(Some(n)) incl. finish(), write_observation (count = multiplicity)
 // @bounds entry = timestamp + metric "A" = Unsigned(any); multiplicity Some(any u64); validations off
 // @oracle exactly the histogram-form record; the three integers formatted are the value, the multiplicity (as the count) and the timestamp
@@ -329,7 +329,7 @@ pub fn whole_format_second_entry_after_success() {
 }
 
 full_harness! {
-// @check C14 thorough timeout=3600 mem=24
+// @check C14 thorough timeout=3600 mem=28
 // @encodes Emf::format with a writer that fails (write_all_vectored error return out of finish()), then a second Emf::format on the same formatter
 // @bounds validations off; first call: a valid entry into a writer whose first write fails hard; second call: timestamp + metric "A" = Unsigned(any) + string "B"
 // @oracle the first call surfaces the I/O error; the second call is Ok and writes exactly the record a fresh formatter writes - no leftovers from the failed entry
@@ -362,7 +362,7 @@ impl Entry for Empty {
 }
 
 full_harness! {
-// @check C02 thorough timeout=3600 mem=24
+// @check C02 thorough timeout=3600 mem=28
 // @encodes Emf::format incl. finish() for an entry without values
 // @bounds entry = timestamp only; validations off
 // @oracle Ok and exactly the minimal record: one complete newline-terminated JSON line ("always emits a life sign")
